@@ -48,6 +48,17 @@ func genC07(c *Ctx) {
 			}
 		}
 	}
+	// (a2) concurrent consume whose callbacks finish their work regardless of the cancellation (they return nil when the
+	//      environment releases them): a cancel that arrives after the source was read to its end but while elements are
+	//      still queued must still be reported
+	for cc := 1; cc <= 3; cc++ {
+		for n := cc + 1; n <= 2*cc+1; n++ {
+			for t := 0; t <= 2; t++ {
+				emit(true, fmt.Sprintf("ccons c=%d n=%d sync=1 mg=1 ign=1 cancel=%d script=-", cc, n, t))
+				emit(true, fmt.Sprintf("ccons c=%d n=%d sync=1 mg=1 ign=1 cancel=%d script=1,0,2,1,0,1", cc, n, t))
+			}
+		}
+	}
 	// (b) seeded random: every wrapper / fault / early stop, optional cancel, gated source (reader blocked in Emit)
 	nr := c.Pick(500, 6000)
 	ops := []string{"cmap", "cmap", "ccons", "buf", "nest", "pipe"}
